@@ -5,14 +5,16 @@
    C20_changes_in_log_order, C20_ordinals_follow_log_order, C20_rollbacks_reverse(_explicit); the proof goes through the
    frontier invariant C20_frontier_invariant (Proofs/Proto3OrderBase.v: SInv + HInv, 28 conjuncts relating the Committed /
    Applied cursors to the phase states of all transactions and to the history).
-   BOUNDED only (depth 7): the blocking rule for failed / aborted applies and Consistency (C20_safety_bounded_partial).
+   Also PROVED unbounded: C20_failed_blocks_later (a change whose apply FAILED or was ABORTED keeps every later change from
+   being applied until it is rolled back), through the second invariant layer C20_blocks_invariant (Proofs/Proto3Blocks*.v).
+   BOUNDED only (depth 7): Consistency on histories inside the guards (C20_safety_bounded_partial).
    REFUTED for the code as it is: Consistency and termination (C20_*_refuted).
    reach w = w is the result of ANY finite sequence of labels (append change, rollback request, reconcile of a
    transaction / the configuration / the mastership with any oracle and any crash point, topology and connection
    changes, device restart) from the empty world. *)
 From Coq Require Import List NArith Bool Lia.
 From OC Require Import Model.Proto3 Spec.Tla3 Proofs.Proto3Proofs Proofs.Proto3Witness
-  Proofs.Proto3OrderBase Proofs.Proto3OrderStep Proofs.Proto3OrderThm.
+  Proofs.Proto3OrderBase Proofs.Proto3OrderStep Proofs.Proto3OrderThm Proofs.Proto3BlocksBase Proofs.Proto3BlocksStep.
 Import ListNotations.
 Open Scope N_scope.
 
@@ -83,8 +85,24 @@ Theorem C20_rollbacks_reverse_explicit : forall w, reach w ->
 Proof. exact rollbacks_reverse_explicit_reach. Qed.
 Print Assumptions C20_rollbacks_reverse_explicit.
 
-(* BOUNDED (Order is proved above without bound; what is still only bounded here is the blocking rule for failed / aborted
-   applies and Consistency, which the code violates in general - see the refutations below):
+(* PROVED for every reachable world: the second layer of the frontier invariant (FInv, Proofs/Proto3BlocksBase.v) - the
+   rollback index a change records when it starts committing is at least every committed index below it; Applied.Target,
+   Applied.Revision and Committed.Revision name committed changes; the applied revision stays below every committed change
+   the applied ordinal has not reached, and below a change whose apply FAILED / was ABORTED until a rollback apply has
+   completed; a PENDING apply that Applied.Target already names passed the abort gate; and the blocking rule itself. *)
+Theorem C20_blocks_invariant : forall w, reach w -> Inv w /\ FInv (get_tx w) (cmc w) (apc w).
+Proof. exact Inv2_reach. Qed.
+Print Assumptions C20_blocks_invariant.
+
+(* PROVED for every reachable world (all label sequences, all crash prefixes, all oracles): after a change whose apply FAILED
+   or was ABORTED no later change has its apply IN_PROGRESS or COMPLETE unless the failed one has been rolled back (its
+   rollback apply COMPLETE / FAILED) - the abort gate of applyChange, Applied.Revision < Rollback.Index, does its job. *)
+Theorem C20_failed_blocks_later : forall w, reach w -> failed_blocks_later_ok w = true.
+Proof. exact failed_blocks_later_reach. Qed.
+Print Assumptions C20_failed_blocks_later.
+
+(* BOUNDED (Order and the blocking rule are proved above without bound; what is still only bounded here is Consistency,
+   which the code violates in general - see the refutations below):
    every label sequence of length <= 7 over append / rollback of the committed revision / reconcile of transactions
    1..2 {complete, crash after the first write, plugin rejects, device refuses} from a healthy single-path
    configuration keeps Order (changes in log order, rollbacks in reverse order), commit-before-apply on the event
